@@ -220,3 +220,35 @@ def check_int_encoder_range(ctx, rep, rule, only_prefix=None):
                    'value entering the %d-bit integer encoding must be a literal, a length, or range-checked to [%d, %d]: %s' % (
                        W - SH, LO, HI, (bad or verdicts)[0][1]), loc)
     rep.count('object_int_call_sites', n)
+
+
+def check_float_casts(ctx, rep, rule):
+    """`f as isize` saturates (and maps NaN to 0): every FloatToInt cast in reachable code needs a dominating two-sided guard on the value"""
+    from rules import psc
+    F = ctx.facts()
+    reach = psc.reachable(ctx, with_bin=False)
+    n = 0
+    for key in sorted(reach):
+        fn = F.fns[key]
+        if fn.crate != 'lib':
+            continue
+        ordn = 0
+        for b, si, st in fn.stmts():
+            if st['k'] == 'assign' and st['rv']['k'] == 'cast' and st['rv']['ck'] == 'FloatToInt':
+                n += 1
+                ordn += 1
+                val = psc.strip(psc.sym(fn, st['rv']['op']))
+                lo = hi = False
+                for f in psc.facts_at(fn, b):
+                    if f[0] in ('Gt', 'Ge', 'Lt', 'Le'):
+                        a, c = psc.strip(f[1]), psc.strip(f[2])
+                        if a == val and f[0] in ('Gt', 'Ge'):
+                            lo = True
+                        if a == val and f[0] in ('Lt', 'Le'):
+                            hi = True
+                        if c == val and f[0] in ('Gt', 'Ge'):
+                            hi = True
+                        if c == val and f[0] in ('Lt', 'Le'):
+                            lo = True
+                rep.ob(lo and hi, rule, key, 'float->int cast#%d' % ordn, 'the value is bounded below and above by dominating tests before the saturating cast (lower %s, upper %s)' % (lo, hi), span_loc(st['span']))
+    rep.count('float_to_int_casts', n)
